@@ -217,7 +217,118 @@ Section Generic.
     - destruct j as [|j]; [destruct i; discriminate E|]. destruct i as [|i]; cbn in *; [exact E|].
       eapply IH. exact E.
   Qed.
+
 End Generic.
+
+(* ---------- more generic facts, free of the partial-item premise ---------- *)
+Section GenericTail.
+  Variables X A : Type.
+  Variable enc : X -> list N.
+  Variable out : X -> A.
+  Variable good : X -> Prop.
+  Variable rd : list N -> step A.
+  Hypothesis rd_full : forall x rest, good x -> rd (enc x ++ rest) = Item (out x) rest.
+  Hypothesis enc_nonempty : forall x, good x -> (0 < length (enc x))%nat.
+
+  (* a stream of whole items followed by a tail on which the item reader stops: all the items,
+     then that stop (used for terminators: the CRAM EOF container, a partial last item) *)
+  Lemma encode_length_ge : forall xs, Forall good xs -> (length xs <= length (encode X enc xs))%nat.
+  Proof.
+    induction xs as [|x t IH]; intros Hg; [cbn; lia|].
+    inversion Hg as [|? ? Hx Ht]; subst. pose proof (enc_nonempty x Hx) as Hne.
+    unfold encode in *. cbn [map concat length]. rewrite app_length. specialize (IH Ht). lia.
+  Qed.
+
+  Lemma read_all_app_stop : forall xs tail s fuel, Forall good xs -> rd tail = Stop s ->
+    (length xs < fuel)%nat -> read_all rd fuel (encode X enc xs ++ tail) = (map out xs, s).
+  Proof.
+    induction xs as [|x t IH]; intros tail s fuel Hg Hs Hf.
+    - destruct fuel as [|f]; [lia|]. unfold encode. cbn [map concat app read_all]. rewrite Hs. reflexivity.
+    - inversion Hg as [|? ? Hx Ht]; subst. destruct fuel as [|f]; [cbn in Hf; lia|].
+      unfold encode in *. cbn [map concat read_all]. rewrite <- app_assoc.
+      rewrite rd_full by exact Hx. rewrite (IH tail s f Ht Hs) by (cbn [length] in Hf; lia). reflexivity.
+  Qed.
+
+  Theorem read_stream_app_stop : forall xs tail s, Forall good xs -> rd tail = Stop s ->
+    read_stream rd (encode X enc xs ++ tail) = (map out xs, s).
+  Proof.
+    intros xs tail s Hg Hs. unfold read_stream. apply read_all_app_stop; [exact Hg|exact Hs|].
+    rewrite app_length. pose proof (encode_length_ge xs Hg). lia.
+  Qed.
+
+  (* ... followed by a tail that is read as one more item and then the stop on empty input *)
+  Lemma read_all_app_item_stop : forall xs tail y s fuel, Forall good xs ->
+    rd tail = Item y [] -> rd [] = Stop s ->
+    (S (length xs) < fuel)%nat -> read_all rd fuel (encode X enc xs ++ tail) = (map out xs ++ [y], s).
+  Proof.
+    induction xs as [|x t IH]; intros tail y s fuel Hg Hy Hs Hf.
+    - destruct fuel as [|[|f]]; [cbn in Hf; lia|cbn in Hf; lia|]. unfold encode.
+      cbn [map concat app]. cbn [read_all]. rewrite Hy. cbn [read_all]. rewrite Hs. reflexivity.
+    - inversion Hg as [|? ? Hx Ht]; subst. destruct fuel as [|f]; [cbn in Hf; lia|].
+      unfold encode in *. cbn [map concat read_all]. rewrite <- app_assoc.
+      rewrite rd_full by exact Hx.
+      rewrite (IH tail y s f Ht Hy Hs) by (cbn [length] in Hf; lia). reflexivity.
+  Qed.
+
+  Theorem read_stream_app_item_stop : forall xs tail y s, Forall good xs ->
+    (0 < length tail)%nat -> rd tail = Item y [] -> rd [] = Stop s ->
+    read_stream rd (encode X enc xs ++ tail) = (map out xs ++ [y], s).
+  Proof.
+    intros xs tail y s Hg Hne Hy Hs. unfold read_stream. apply read_all_app_item_stop; try assumption.
+    rewrite app_length. pose proof (encode_length_ge xs Hg). lia.
+  Qed.
+
+  (* a prefix of an encoded stream = the whole items inside it, then a proper prefix of the next *)
+  Lemma firstn_encode_split : forall xs k,
+    firstn k (encode X enc xs) =
+      encode X enc (firstn (whole X enc xs k) xs) ++
+      match nth_error xs (whole X enc xs k) with
+      | Some x => firstn (k - length (encode X enc (firstn (whole X enc xs k) xs))) (enc x)
+      | None => []
+      end.
+  Proof.
+    clear rd_full enc_nonempty.
+    induction xs as [|x t IH]; intros k.
+    - unfold encode. cbn [whole firstn map concat nth_error app]. now rewrite firstn_nil.
+    - cbn [whole]. destruct (k <? length (enc x))%nat eqn:E.
+      + unfold encode. cbn [firstn map concat nth_error app length]. rewrite Nat.sub_0_r.
+        rewrite firstn_app. replace (k - length (enc x))%nat with O by lia.
+        cbn [firstn]. now rewrite app_nil_r.
+      + unfold encode in *. cbn [firstn map concat nth_error]. rewrite app_length.
+        rewrite firstn_app. rewrite (firstn_all2 (enc x)) by lia. rewrite <- app_assoc. f_equal.
+        rewrite (IH (k - length (enc x))%nat).
+        replace (k - (length (enc x) + length (concat (map enc (firstn (whole X enc t (k - length (enc x))) t)))))%nat
+          with (k - length (enc x) - length (concat (map enc (firstn (whole X enc t (k - length (enc x))) t))))%nat by lia.
+        reflexivity.
+  Qed.
+
+  Lemma whole_le' : forall xs k, (whole X enc xs k <= length xs)%nat.
+  Proof.
+    clear rd_full enc_nonempty.
+    induction xs as [|x t IH]; intros k; cbn [whole length]; [lia|].
+    destruct (k <? length (enc x))%nat; [lia|]. specialize (IH (k - length (enc x))%nat). lia.
+  Qed.
+
+  Lemma whole_fits' : forall xs k, (length (encode X enc (firstn (whole X enc xs k) xs)) <= k)%nat.
+  Proof.
+    clear rd_full enc_nonempty.
+    induction xs as [|x t IH]; intros k; cbn [whole]; [cbn; lia|].
+    destruct (k <? length (enc x))%nat eqn:E1; [cbn; lia|].
+    cbn [firstn]. unfold encode in *. cbn [map concat]. rewrite app_length.
+    specialize (IH (k - length (enc x))%nat). lia.
+  Qed.
+
+  Lemma whole_next' : forall xs k, (whole X enc xs k < length xs)%nat ->
+    (k < length (encode X enc (firstn (S (whole X enc xs k)) xs)))%nat.
+  Proof.
+    clear rd_full enc_nonempty.
+    induction xs as [|x t IH]; intros k; cbn [whole length]; [lia|].
+    destruct (k <? length (enc x))%nat eqn:E1.
+    - intros _. cbn [firstn]. unfold encode. cbn [map concat]. rewrite app_length. lia.
+    - intros Hlt. specialize (IH (k - length (enc x))%nat ltac:(lia)).
+      unfold encode in *. cbn [firstn map concat] in *. rewrite app_length. lia.
+  Qed.
+End GenericTail.
 
 (* ------------------------------------------------------------------------------------------ *)
 (* helpers *)
@@ -465,6 +576,97 @@ Section BCFProofs.
     - apply nth_error_None in En. assert (Hge : (j <? length rs)%nat = false) by lia.
       rewrite Hge. reflexivity.
   Qed.
+
+  (* ----- the eager path ----- *)
+  Variable samples_ok : list N -> list N -> option ekind.
+
+  (* record by record the eager reader is the lazy reader followed by the sample decoder *)
+  Lemma bcf_eager_is_lazy : forall after bs,
+    bcf_read_record_buf site_ok samples_ok after bs =
+      match bcf_read_record site_ok after bs with
+      | Item (site, samples) r =>
+          match samples_ok site samples with
+          | Some e => Stop (Err e)
+          | None => Item (site, samples) r
+          end
+      | Stop s => Stop s
+      end.
+  Proof.
+    intros after bs. unfold bcf_read_record_buf, bcf_read_record.
+    destruct bs as [|b t]; [reflexivity|].
+    destruct (take 4 (b :: t)) as [[h r]|]; [|reflexivity].
+    destruct (le_dec h =? 0); [reflexivity|].
+    destruct (take 4 r) as [[h2 r2]|]; [|reflexivity].
+    destruct (take (le_dec h) r2) as [[site r3]|]; [|reflexivity].
+    destruct (site_ok site); [reflexivity|].
+    destruct (take (le_dec h2) r3) as [[samples r4]|]; reflexivity.
+  Qed.
+
+  Definition bcf_buf_good (r : list N * list N) : Prop :=
+    bcf_good r /\ samples_ok (fst r) (snd r) = None.
+
+  Lemma bcf_buf_rd_full : forall after r rest, bcf_buf_good r ->
+    bcf_read_record_buf site_ok samples_ok after (bcf_encode_record r ++ rest) = Item r rest.
+  Proof.
+    intros after r rest (Hg & Hs). rewrite bcf_eager_is_lazy, (bcf_rd_full after r rest Hg).
+    destruct r as [site samples]. cbn [fst snd] in Hs. rewrite Hs. reflexivity.
+  Qed.
+
+  Lemma bcf_buf_rd_part : forall after r j, bcf_buf_good r ->
+    (0 < j < length (bcf_encode_record r))%nat ->
+    bcf_read_record_buf site_ok samples_ok after (firstn j (bcf_encode_record r)) = Stop (Err (short after)).
+  Proof.
+    intros after r j (Hg & _) Hj. rewrite bcf_eager_is_lazy, (bcf_rd_part after r j Hg Hj). reflexivity.
+  Qed.
+
+  Lemma bcf_buf_enc_nonempty : forall r, bcf_buf_good r -> (0 < length (bcf_encode_record r))%nat.
+  Proof. intros r (Hg & _). apply bcf_enc_nonempty. exact Hg. Qed.
+
+  Lemma bcf_buf_good_lazy : forall rs, Forall bcf_buf_good rs -> Forall bcf_good rs.
+  Proof. intros rs H. eapply Forall_impl; [|exact H]. intros r (Hg & _). exact Hg. Qed.
+
+  Theorem bcf_buf_stream_truncation : forall after rs k, Forall bcf_buf_good rs ->
+    exists j : nat,
+      (j <= length rs)%nat /\
+      (length (bcf_encode (firstn j rs)) <= k)%nat /\
+      (j < length rs -> k < length (bcf_encode (firstn (S j) rs)))%nat /\
+      read_stream (bcf_read_record_buf site_ok samples_ok after) (firstn k (bcf_encode rs)) =
+        (firstn j rs,
+         if (j <? length rs)%nat && negb (k =? length (bcf_encode (firstn j rs)))%nat
+         then Err (short after) else after).
+  Proof.
+    intros after rs k Hg.
+    destruct (stream_truncation_generic _ _ bcf_encode_record (fun r => r) bcf_buf_good
+                (bcf_read_record_buf site_ok samples_ok after) after (fun _ _ => Err (short after))
+                eq_refl (bcf_buf_rd_full after) (bcf_buf_rd_part after) bcf_buf_enc_nonempty rs k Hg)
+      as (j & H1 & H2 & H3 & H4).
+    exists j. split; [exact H1|]. split; [exact H2|]. split; [exact H3|].
+    unfold bcf_encode. rewrite H4. rewrite map_id. f_equal.
+    destruct (nth_error rs j) as [x|] eqn:En.
+    - assert (Hlt : (j < length rs)%nat) by (apply nth_error_Some; congruence).
+      apply Nat.ltb_lt in Hlt. rewrite Hlt. cbn [andb].
+      destruct (k =? length (encode _ bcf_encode_record (firstn j rs)))%nat; reflexivity.
+    - apply nth_error_None in En. assert (Hge : (j <? length rs)%nat = false) by lia.
+      rewrite Hge. reflexivity.
+  Qed.
+
+  (* on every cut of a written stream the eager and the lazy reader return the same records and
+     stop in the same way *)
+  Theorem bcf_eager_lazy_coincide : forall after rs k, Forall bcf_buf_good rs ->
+    read_stream (bcf_read_record_buf site_ok samples_ok after) (firstn k (bcf_encode rs)) =
+    read_stream (bcf_read_record site_ok after) (firstn k (bcf_encode rs)).
+  Proof.
+    intros after rs k Hg.
+    unfold bcf_encode.
+    rewrite (read_stream_cut _ _ bcf_encode_record (fun r => r) bcf_buf_good
+               (bcf_read_record_buf site_ok samples_ok after) after (fun _ _ => Err (short after))
+               eq_refl (bcf_buf_rd_full after) (bcf_buf_rd_part after) bcf_buf_enc_nonempty rs k Hg).
+    rewrite (read_stream_cut _ _ bcf_encode_record (fun r => r) bcf_good
+               (bcf_read_record site_ok after) after (fun _ _ => Err (short after))
+               eq_refl (bcf_rd_full after) (bcf_rd_part after) bcf_enc_nonempty rs k
+               (bcf_buf_good_lazy rs Hg)).
+    reflexivity.
+  Qed.
 End BCFProofs.
 
 (* ------------------------------------------------------------------------------------------ *)
@@ -627,6 +829,34 @@ Section Layered.
     destruct (length p <? length hdrbytes)%nat eqn:E; [reflexivity|].
     f_equal. f_equal.
     assert (Hp : p = firstn (length p) (hdrbytes ++ bam_encode rs)).
+    { rewrite <- Hcat. apply concat_map_firstn_prefix. }
+    rewrite firstn_app_ge in Hp by lia.
+    rewrite Hp at 1. rewrite skipn_app, skipn_all, Nat.sub_diag. reflexivity.
+  Qed.
+
+  (* the same for ANY record reader [rd] and any payload behind the header bytes: the layered
+     reader is the plain reader [rd s] on the delivered part of the payload *)
+  Theorem rec_over_bgzf_truncation : forall (A : Type) (rd : stop -> list N -> step A)
+      fs payload hdrbytes k,
+    Forall (frame_good inflate) fs ->
+    concat (map (frame_data inflate) fs) = hdrbytes ++ payload ->
+    exists (j : nat) (s : stop),
+      bgzf_blocks inflate (firstn k (bgzf_file fs)) = (map (frame_data inflate) (firstn j fs), s) /\
+      (s = Eof \/ s = Err UnexpectedEof) /\
+      let p := concat (map (frame_data inflate) (firstn j fs)) in
+      rec_over_bgzf inflate rd (length hdrbytes) (firstn k (bgzf_file fs)) =
+        if (length p <? length hdrbytes)%nat then None
+        else Some (read_stream (rd s) (firstn (length p - length hdrbytes) payload)).
+  Proof.
+    intros A rd fs payload hdrbytes k Hg Hcat.
+    destruct (bgzf_truncation inflate fs k Hg) as (j & _ & _ & _ & Hb).
+    eexists j, _. split; [exact Hb|]. split.
+    { destruct ((j <? length fs)%nat && negb (k - length (bgzf_file (firstn j fs)) <? 18)%nat); auto. }
+    cbn zeta. unfold rec_over_bgzf. rewrite Hb.
+    set (p := concat (map (frame_data inflate) (firstn j fs))).
+    destruct (length p <? length hdrbytes)%nat eqn:E; [reflexivity|].
+    f_equal. f_equal.
+    assert (Hp : p = firstn (length p) (hdrbytes ++ payload)).
     { rewrite <- Hcat. apply concat_map_firstn_prefix. }
     rewrite firstn_app_ge in Hp by lia.
     rewrite Hp at 1. rewrite skipn_app, skipn_all, Nat.sub_diag. reflexivity.
